@@ -485,8 +485,9 @@ def gen_spec(draw):
         raw = draw(st.sampled_from([0, 1, 2]))
         return {"k": "bool", "v": bool(raw), "raw": raw}
     if k == "enum":
-        return {"k": "enum", "v": draw(st.sampled_from(["", "A", "B", "ON", "OFF"])), "raw": draw(st.integers(0, 3))}
-    txt = draw(st.sampled_from(["", "A", "B", "abc", "é"]))
+        return {"k": "enum", "v": draw(st.sampled_from(["", "A", "B", "ON", "OFF", " ON", "ON ", "ON  "])),
+                "raw": draw(st.integers(0, 3))}
+    txt = draw(st.sampled_from(["", "A", "B", "abc", "é", "A ", " A", "A  B", "ON  "]))
     return {"k": "str", "v": txt, "raw": txt.encode("utf-8").hex()}
 
 
@@ -497,7 +498,7 @@ def _literal_strategy(v):
         return st.one_of(st.just(str(v)), st.sampled_from([str(i) for i in INTS]), st.integers(-5, 5).map(str))
     if isinstance(v, float):
         return st.one_of(st.just(repr(v)), st.sampled_from(FLOATS), st.integers(-3, 3).map(str))
-    return st.one_of(st.just(v), st.sampled_from(["", "A", "B", "ON"]))
+    return st.one_of(st.just(v), st.sampled_from(["", "A", "B", "ON", " ON", "ON ", "ON  ", "A ", " A"]))
 
 
 @st.composite
